@@ -98,28 +98,36 @@ structure St where
   hints : List Obj := []
   /-- newest first -/
   log : List Entry := []
+  /-- history (ghost, never read by the model): every event appended to the queue since the last
+  `clear`, and every event taken out of it for delivery, both in order -/
+  enqueued : List (String × String) := []
+  released : List (String × String) := []
 deriving Inhabited
 
 def St.alive (s : St) (r : Obj) : Bool := s.held.contains r || s.pinned.contains r
+
+/-- one iteration of the loop of `_remove_weak_handler` (events.py:85-86); `set.remove` raises
+KeyError when the entry is absent -/
+def remStep (r : Obj) (acc : Dict String (List (Obj × String)) × Outcome) (p : String × String) :
+    Dict String (List (Obj × String)) × Outcome :=
+  match acc.2 with
+  | .ok =>
+    match Dict.get? acc.1 p.1 with
+    | none => (acc.1, Outcome.raised "KeyError")
+    | some l =>
+      if l.contains (r, p.2) then (Dict.set acc.1 p.1 (l.filter (· ≠ (r, p.2))), Outcome.ok)
+      else (acc.1, Outcome.raised "KeyError")
+  | _ => acc
 
 /-- events.py:77-88 -/
 def removeWeak (s : St) (r : Obj) : St × Outcome :=
   match Dict.get? s.handlers r with
   | none => (s, .ok)
   | some entries =>
-    let step := fun (acc : Dict String (List (Obj × String)) × Outcome) (p : String × String) =>
-      match acc.2 with
-      | .ok =>
-        match Dict.get? acc.1 p.1 with
-        | none => (acc.1, Outcome.raised "KeyError")
-        | some l =>
-          if l.contains (r, p.2) then (Dict.set acc.1 p.1 (l.filter (· ≠ (r, p.2))), Outcome.ok)
-          else (acc.1, Outcome.raised "KeyError")
-      | _ => acc
-    let (ev, out) := entries.foldl step (s.events, Outcome.ok)
-    match out with
-    | .ok => ({ s with events := ev, handlers := Dict.erase s.handlers r }, .ok)
-    | o => ({ s with events := ev }, o)
+    let res := entries.foldl (remStep r) (s.events, Outcome.ok)
+    match res.2 with
+    | .ok => ({ s with events := res.1, handlers := Dict.erase s.handlers r }, .ok)
+    | o => ({ s with events := res.1 }, o)
 
 /-- events.py:50-69 -/
 def addHandler (s : St) (r : Obj) (m : Mapping) : St :=
@@ -161,13 +169,15 @@ def execOp (U : Universe) : Nat → St → Op → St × Outcome
       if s.held.contains o then removeWeak s o else (s.push (.gone o), .ok)
     | .drop o =>
       if s.held.contains o then (dropObj s o, .ok) else (s.push (.gone o), .ok)
-    | .clear => ({ s with queue := [], events := [], handlers := [], enabled := true }, .ok)
+    | .clear => ({ s with queue := [], events := [], handlers := [], enabled := true,
+                          enqueued := [], released := [] }, .ok)
     | .dispatch ev args =>
       -- events.py:105-116
       match Dict.get? s.events ev with
       | none => (s, .ok)
       | some listeners =>
-        if !s.enabled then ({ s with queue := s.queue ++ [(ev, args)] }, .ok)
+        if !s.enabled then ({ s with queue := s.queue ++ [(ev, args)],
+                                     enqueued := s.enqueued ++ [(ev, args)] }, .ok)
         else deliver U fuel s listeners args
     | .enable b =>
       -- events.py:122-136
@@ -212,7 +222,8 @@ def release (U : Universe) : Nat → St → St × Outcome
     | (ev, args) :: q =>
       if !s.enabled then (s, .ok)
       else
-        match execOp U fuel { s with queue := q } (.dispatch ev args) with
+        match execOp U fuel { s with queue := q, released := s.released ++ [(ev, args)] }
+            (.dispatch ev args) with
         | (s', .ok) => release U fuel s'
         | r => r
 end
